@@ -1,12 +1,14 @@
 #!/bin/bash
-# usage: seed_round_process.sh <letter>   -- verify every /tmp/mut/C??<letter>/_out, run the own property's check on each
-# confirmed seed, and for the ones it misses run all checks and list which rules fire.
-L=$1
+# usage: seed_round_process.sh <letter> [ids...]  -- verify every /tmp/mut/C??<letter>/_out (scratch worktree, see
+# seed_verify.sh), store the confirmed ones under /verif/seeded, then run ALL checks on a scratch copy with each change
+# applied (par_patches.sh; /repo is not touched) and list the ones their own property's check misses.
+L=$1; shift
 cd /verif
-for p in 01 02 03 04 05 06 07 08 09 10 11 12 13 14 15 16 17 18 19 20; do
-  id=C${p}$L
+ids="$@"; [ -z "$ids" ] && ids=$(for p in 01 02 03 04 05 06 07 08 09 10 11 12 13 14 15 16 17 18 19 20; do echo C${p}$L; done)
+args=""
+for id in $ids; do
   [ -d /tmp/mut/$id/_out ] || { echo "$id: no deliverables yet"; continue; }
-  # normalise the run line (agents sometimes prefix env assignments)
+  # normalise the run line (agents sometimes prefix env assignments or indent it)
   python3 - "$id" <<'PY'
 import re,sys
 p=f'/tmp/mut/{sys.argv[1]}/_out/demo_test.go'
@@ -19,13 +21,11 @@ if not re.search(r'^//\s+go test .*$', s, re.M):
         open(p,'w').write(s)
 PY
   [ -d /verif/seeded/$id ] || scripts/seed_verify.sh $id 2>&1 | tail -1
-  [ -d /verif/seeded/$id ] || continue
-  r=$(scripts/seed_run.sh $id 2>&1 | head -1)
-  echo "$r"
-  case "$r" in *"rc=0"*)
-    t=$(python3 -c "
-import re;t=open('/verif/seeded/$id/patch.diff').read();print(re.findall(r'^\+\+\+ b/(\S+)',t,re.M), re.findall(r'^@@.*@@ (.*)$',t,re.M)[:1])")
-    echo "   MISSED by own check: $t"
-    scripts/seed_run.sh $id all 2>&1 | grep "^  \[" | awk '{print "     ", $2, $3}' | sort -u | cut -c1-180 | head -5
-  ;; esac
+  [ -d /verif/seeded/$id ] && args="$args $id=/verif/seeded/$id/patch.diff"
+done
+[ -z "$args" ] && exit 0
+KEEPLOG=/tmp/seedlogs scripts/par_patches.sh -j 10 $args | sort | while IFS='|' read id rc fired rules rest; do
+  id=$(echo $id); own=${id:0:3}
+  case " $fired " in *" $own "*) echo "$id detected by own check; fired:$fired rules:$rules";;
+  *) echo "$id MISSED by own check ($(grep -m1 '^+++' seeded/$id/patch.diff | sed 's#+++ b/##')); fired:${fired:- none} rules:$rules";; esac
 done
